@@ -4,6 +4,7 @@ package main
 
 import (
 	"fmt"
+	"go/token"
 	"go/types"
 	"regexp"
 	"sort"
@@ -58,6 +59,7 @@ type State struct {
 	panicking bool
 	recovered bool
 	panicVal  Value
+	panicPos  token.Pos
 	active    []*loopRun
 	written   map[string]bool
 	epoch     int
@@ -100,7 +102,7 @@ func (st *State) callResult(frame int, key string, n int) (Value, bool) {
 }
 
 func (st *State) clone() *State {
-	n := &State{log: st.log, alloc: st.alloc, panicking: st.panicking, recovered: st.recovered, panicVal: st.panicVal, epoch: st.epoch, nonNil: st.nonNil, calls: st.calls}
+	n := &State{log: st.log, alloc: st.alloc, panicking: st.panicking, recovered: st.recovered, panicVal: st.panicVal, panicPos: st.panicPos, epoch: st.epoch, nonNil: st.nonNil, calls: st.calls}
 	n.active = append([]*loopRun{}, st.active...)
 	n.havocPats = append([]string{}, st.havocPats...)
 	if st.written != nil {
@@ -144,6 +146,16 @@ func (st *State) assume(t Term) {
 		}
 		return
 	}
+	// (=> g (and a b)) becomes (=> g a), (=> g b)
+	if strings.HasPrefix(t.S, "(=> ") {
+		parts := sexprTop(t.S)
+		if len(parts) == 3 && strings.HasPrefix(parts[2], "(and ") {
+			for _, c := range sexprTop(parts[2])[1:] {
+				st.assume(Term{"(=> " + parts[1] + " " + c + ")", SBool})
+			}
+			return
+		}
+	}
 	st.push(&LogNode{Kind: KAssume, T: t})
 }
 
@@ -181,6 +193,8 @@ type Exec struct {
 	extraDecls     string
 	initRecord     map[string][]mapUpd
 	initMode       bool
+	panicPaths     bool // explore the panic path of callees declared `panics may`
+	curFrame       *Frame
 }
 
 type endState struct {
@@ -370,6 +384,11 @@ func families(s string, arrays map[string]bool) map[string]bool {
 // With slice, hypotheses that only talk about heap leaves the goal does not mention are left out
 // as well (relevance slicing; again only weakens the hypotheses).
 func (x *Exec) buildQueryOpt(ob *LogNode, dropNL bool, slice bool) string {
+	return x.buildQuerySliced(ob, dropNL, slice, false)
+}
+
+// closure: the relevant families are closed under "mentioned together in a hypothesis".
+func (x *Exec) buildQuerySliced(ob *LogNode, dropNL bool, slice bool, closure bool) string {
 	nodes := collect(ob.Parent)
 	var goalFam map[string]bool
 	arrays := map[string]bool{}
@@ -385,6 +404,34 @@ func (x *Exec) buildQueryOpt(ob *LogNode, dropNL bool, slice bool) string {
 			}
 		}
 		goalFam = families(ob.T.S, arrays)
+		if closure {
+			fams := make([]map[string]bool, len(nodes))
+			for i, n := range nodes {
+				if n.Kind == KAssume || n.Kind == KOblige {
+					fams[i] = families(n.T.S, arrays)
+				}
+			}
+			for changed := true; changed; {
+				changed = false
+				for _, fs := range fams {
+					hit := false
+					for f := range fs {
+						if goalFam[f] {
+							hit = true
+							break
+						}
+					}
+					if hit {
+						for f := range fs {
+							if !goalFam[f] {
+								goalFam[f] = true
+								changed = true
+							}
+						}
+					}
+				}
+			}
+		}
 	}
 	keep := func(t string) bool {
 		if !slice {
